@@ -221,6 +221,10 @@ func Run(c *core.Ctx, pool *gjs.Pool) {
 		c.Infra(fmt.Errorf("decode scenarios: %v", err))
 		return
 	}
+	if n, err := strconv.Atoi(os.Getenv("C11_CORRUPT_PREDICTION")); err == nil && n >= 0 && n < len(evs) {
+		// non-vacuity drill: one predicted descriptor is falsified, the check must fail
+		evs[n].want += "!"
+	}
 	c.Phase("tlc")
 	// all programs (conversion tables, identity, callbacks, wrapper) share one pool of c.Workers
 	var jobs []func()
@@ -665,7 +669,7 @@ func runEvals(c *core.Ctx, pool *gjs.Pool, evs []*ev) ([]func(), func()) {
 func runTable(c *core.Ctx, pool *gjs.Pool, es []*ev, fails *[]failure, judged *int) {
 	{
 		prog := renderProgram(es)
-		b := pool.RunBoth(c.Scratch, prog, gjs.Opts{}, 10*time.Minute, false, os.Getenv("VERIF_KEEP") != "")
+		b := pool.RunBoth(c.Scratch, prog, gjs.Opts{}, time.Duration(c.Pick(3, 8))*time.Minute, false, os.Getenv("VERIF_KEEP") != "")
 		if b.BuildErr != nil {
 			if be, ok := b.BuildErr.(*gjs.BuildError); ok && be.Panic {
 				c.Report(core.Case{Keys: []string{"compiler_panic"}, Summary: "compiler internal error on a conversion table program: " + be.Error(), Files: prog.ReplayFiles("prog")})
